@@ -2033,7 +2033,17 @@ def rule_wide(repo):
     return r
 
 
-RULES = [rule_rdy, rule_count, rule_step, rule_siblings, rule_cl, rule_history, rule_copy, rule_connect, rule_buffer]
+def rule_openloop_rdy_order(repo):
+    """the CL queues publish their start-of-cycle ready flags through constraints of the form U(up_pulse) < M(s.enq.rdy); in
+    open-loop simulation these are stated on raw functions and only take effect if both the method and the rdy of a top-level
+    non-blocking interface are entered in the raw-function -> vertex map: otherwise enq.rdy is evaluated before the block that
+    computes it, a full queue reports ready and deque(maxlen) drops the oldest message -- decided by C02 (R-C02-openloop-vertices)"""
+    from rules.c02 import rule_openloop_vertices
+    return rule_openloop_vertices(repo)
+
+
+RULES = [rule_rdy, rule_count, rule_step, rule_siblings, rule_cl, rule_history, rule_copy, rule_connect, rule_buffer,
+         rule_openloop_rdy_order]
 THOROUGH_RULES = [rule_wide]
 
 # ---------------------------------------------------------------------------
